@@ -313,12 +313,24 @@ def run(run):
     pool = term_pool()
     L = 3 if thorough else 2
     cases = [{"a": {"s": [pool[i] for i in combo]}} for k in range(0, L + 1) for combo in itertools.product(range(len(pool)), repeat=k)]
-    secs.append(Section("simplify", cases, simplify_case, desc="simplify on every ordered list of pool terms"))
+    # rounding residues: like coefficients that cancel only up to floating-point rounding (0.1 + 0.2 - 0.3 = 5.6e-17) must vanish from the simplified sum
+    for res in ([[0.1, {"0": "X"}], [0.2, {"0": "X"}], [1.0, {"1": "Z"}], [-0.3, {"0": "X"}]], [[0.7, {}], [0.1, {}], [-0.8, {}], [2.0, {"0": "Y"}]],
+                [[[0.1, 0.3], {"1": "Y"}], [[0.2, -0.1], {"1": "Y"}], [[-0.3, -0.2], {"1": "Y"}]], [[1e-9, {"0": "Z"}], [1.0, {"1": "Z"}]], [[4e-9, {"0": "Z"}], [-3e-9, {"0": "Z"}], [1.0, {"2": "X"}]]):
+        cases += [{"a": {"s": list(p)}} for p in itertools.permutations(res)]
+    secs.append(Section("simplify", cases, simplify_case, desc="simplify on every ordered list of pool terms; rounding residues vanish"))
     # --- equality on all pairs of simplified pool members (+ constants and single terms)
     E = [{"s": s} for s in sums(3 if thorough else 2)] + [{"t": t} for t in pool if t[0] != 0]
     if not thorough:
         E = E[:70] + E[-9:]
     cases = [{"a": a, "b": b} for a in E for b in E]
+    # terms that tie on support AND coefficient (only the Pauli letters differ), in every order; and like coefficients that fall into one hash bucket
+    # (both round to 0 at 1e-6) but differ by far more than the 1e-8 tolerance
+    ties = [[[1.0, {"0": "X"}], [1.0, {"0": "Z"}]], [[0.5, {"0": "X", "1": "Y"}], [0.5, {"0": "Y", "1": "X"}], [0.5, {"0": "Z", "1": "Z"}]], [[[0, 1], {"2": "Y"}], [[0, 1], {"2": "X"}]],
+            [[2.0, {"0": "X"}], [2.0, {"1": "X"}], [2.0, {"0": "Y"}]]]
+    tie_ops = [{"s": list(p)} for t in ties for p in itertools.permutations(t)]
+    cases += [{"a": a, "b": b} for a in tie_ops for b in tie_ops]
+    small = [{"s": [[c, {"0": "X"}], [1.0, {"1": "Z"}]]} for c in (2e-7, 4e-7, 1e-7, 3e-7, 4.9e-7, -2e-7)] + [{"t": [c, {"0": "X", "2": "Y"}]} for c in (2e-7, 4e-7, -3e-7, [2e-7, 2e-7], [2e-7, -2e-7])]
+    cases += [{"a": a, "b": b} for a in small for b in small]
     secs.append(Section("equality", cases, eq_case, desc="== on all ordered pairs of simplified pool members vs matrix equality"))
     cases = []
     for st in strings([0, 1, 2]):
